@@ -200,6 +200,12 @@ def _tan(x):
 _C_ERF = 2.0 / math.sqrt(math.pi)
 
 
+def _sech2(t):
+    """1/cosh(t)^2 without cancellation (1 - tanh^2) or overflow (cosh)"""
+    q = math.exp(-2.0 * abs(t))
+    return 4.0 * q / (1.0 + q) ** 2
+
+
 def _heaviside(x, h0=H0):
     x = lift(x)
     if x.v == 0.0:
@@ -234,7 +240,7 @@ FUNCS = {
     "log": _log,
     "sqrt": _sqrt,
     "abs": _abs,
-    "tanh": lambda x: _fun(x, math.tanh, lambda t: 1 - math.tanh(t) ** 2, lambda t: -2 * math.tanh(t) * (1 - math.tanh(t) ** 2)),
+    "tanh": lambda x: _fun(x, math.tanh, _sech2, lambda t: -2 * math.tanh(t) * _sech2(t)),
     "sinh": lambda x: _fun(x, math.sinh, math.cosh, math.sinh),
     "cosh": lambda x: _fun(x, math.cosh, math.sinh, math.cosh),
     "atan": lambda x: _fun(x, math.atan, lambda t: 1 / (1 + t * t), lambda t: -2 * t / (1 + t * t) ** 2),
@@ -308,8 +314,8 @@ class Oracle:
 # ----------------------------------------------------------------------------------------------
 
 ATOMS = ["a", "b", "2", "0.5", "(-1.5)", "k", "v", "arr[0]", "arr[1]", "pi"]
-ATOMS_R = ["a", "b", "0.5"]  # reduced atom set of the inner level (quick)
-ATOMS_V = ["a", "b"]  # reduced atom set of the deep levels (thorough)
+ATOMS_R = ["a", "b", "0.5"]  # atom set of the inner level of depth-2 expressions (thorough)
+ATOMS_V = ["a", "b"]  # atom set of the inner level (quick), of siblings and of the deep levels (thorough)
 
 # name -> (template, kind): kind "call" never needs parentheses as a child, "infix" always gets them
 UNARY = {
@@ -420,8 +426,7 @@ def wrap(inner, siblings, both_sides=True):
 def enumerate_trees(tier):
     """the complete, deterministic, simplest-first enumeration of the tier's grammar"""
     trees = list(ATOMS) + level1(ATOMS)
-    l1r = level1(ATOMS_R)
-    trees += wrap(l1r, ATOMS_V)
+    trees += wrap(level1(ATOMS_R if tier == "thorough" else ATOMS_V), ATOMS_V)
     if tier == "thorough":
         l1v = level1(ATOMS_V)
         # both children non-atomic
